@@ -95,7 +95,7 @@ func fieldVals(rr dns.RR, steps []textStep) (string, bool) {
 			} else {
 				out = append(out, "t:"+strings.Join(ks, ","))
 			}
-		case "uint", "uintlax", "uintalg", "uintttl", "hexgroups", "euitok", "nodeid":
+		case "uint", "uintlax", "mnem", "uintalg", "uintttl", "hexgroups", "euitok", "nodeid":
 			out = append(out, fmt.Sprintf("n:%d", fv.Uint()))
 		case "name", "endstr", "endstrsplit", "tok", "octet", "tokstr", "salt":
 			out = append(out, "s:"+hexOrDash([]byte(fv.String())))
@@ -231,12 +231,28 @@ func textStream(c *Ctx, per int) {
 				}
 			}
 		}
+		// every certificate type and algorithm that has a mnemonic, and their neighbours without one
+		if structName == "CERT" {
+			for _, ct := range []uint16{0, 1, 2, 3, 4, 5, 6, 7, 8, 9, 252, 253, 254, 255, 65535} {
+				for _, alg := range []uint8{0, 1, 2, 3, 5, 6, 7, 8, 9, 10, 12, 13, 14, 15, 16, 17, 251, 252, 253, 254, 255} {
+					rr := &dns.CERT{Hdr: dns.RR_Header{Name: "c.example.", Rrtype: dns.TypeCERT, Class: 1, Ttl: 5}, Type: ct, KeyTag: uint16(r.Intn(65536)), Algorithm: alg, Certificate: "YWJj"}
+					txt := rr.String()
+					f := strings.SplitN(txt, "\t", 5)
+					if vals, ok := fieldVals(rr, pl.Print); ok && len(f) == 5 {
+						c.OpK("text-print", fmt.Sprintf("text.print %s %s", structName, vals), hexOrDash([]byte(f[4])), true, "text-print-mnemonics")
+						parseOne("mnemonics", structName, "", txt+"\n", pl.Parse)
+					}
+				}
+			}
+		}
 		// relative names and @ against an origin, numbers at their limits
 		for _, rd := range []string{"@", "rel", "rel.ative", "0 rel", "65535 @", "65536 rel", "255 255 255 abcd", "256 1 1 abcd", "0 0 0 rel", "1 2 3 @",
 			"00 001 0002 rel", "\"a\" \"b\"", "abcd ef01", "1 RSASHA256 2 abcd", "1 rsasha1 2 abcd", "1 ED25519 1 ab cd", "1 NOSUCH 1 ab", "1 256 1 ab", "31 8 2 ab", "4294967295 1 1 aa", "4294967296 1 1 aa", "",
 			"ns h 1 1h 2d 3w 4m", "ns. h. 1h 1 1 1 1", "@ @ 4294967295 4294967295 1H1M 1w1d 0", "ns h 4294967296 1 1 1 1", "ns h 1 2 3 4 5 6", "ns h 1 2 3 4", "ns h 1 2 3 4 5x", "ns h 1 7102w 3 4 5",
 			"b. A MX TYPE65535 any Type12 tYPE12 XXXX12 TYPE65536 TYPE TYPE1x", "b.", "b. ", "b. A (\nMX ) ; c\n", "b. A ( MX", "b. A IN", "b. \"A\"", "b. A TYPE00012", "rel a mx", "b. A\tMX  aaaa",
 			"1 2 A MX", "1 2", "4294967295 65535 TYPE0 TYPE255 ANY", "1 65536 A", "4294967296 1 A", "1 2 A NOPE", "1 2 )", "1 ) 2 A", "1 2 A ) MX", "b. A ) MX", "b. A ;)",
+			"PKIX 1 RSASHA256 YWJj", "pkix 1 8 YWJj", "1 1 8 YWJj", "65535 65535 255 YWJj", "65536 1 1 YWJj", "URI 0 ED25519 YWJj", "254 0 253 YWJj", "OID 1 PRIVATEOID YWJj", "PKIX 1 rsasha256 YWJj",
+			"PKIX 1 256 YWJj", "PKIX 1 RSASHA256", "PKIX 1 RSASHA256 YW Jj", "0PKIX 1 1 YWJj", "PKIX 1 RSASHA1-NSEC3-SHA1 YWJj", "PKIX 65536 8 YWJj", "PKIX x 8 YWJj", "IACPKIX 1 ECC-GOST YWJj", "01 1 08 YWJj",
 			"1.2.3.4", "01.2.3.4", "1.2.3.256", "1.2.3", "1.2.3.4.5", "::ffff:1.2.3.4", "1.2.3.4 x", "255.255.255.255", "0.0.0.0", "1..2.3", "1.2.3.4.",
 			"0x1.2.3.4", "1.2.3.04", "1.2.3.0004", "192.0.2.1 ; c", "1.2.3.4:", "1.2.3.4%eth0", "1.2.3.+4", "1.2.3.4\\000", "\"1.2.3.4\"", "1:2:3:4:5:6:7:8", "::1.2.3.4", "1.2.3.4 (\n)", "00.0.0.0", "0.0.0.00", "1.2.3.255", "1.2.3.2555"} {
 			line := "x.example. 5 IN " + tn + " " + rd + "\n"
